@@ -9,6 +9,10 @@ HW_NOTE = ("Trusted base: the host CPU and the kernel's ptrace/signal reporting 
 MODEL_NOTE = ("Trusted base: the reference models in harness/src (10-60 lines each, written from the SDM / System V ABI / elf(5), not from the subject's source); "
               "release-profile semantics with the ax_verif hooks on. Sampling decides; enumerated sub-spaces are listed in the evidence file.")
 
+EVENT_NOTE = ("Trusted base: iced-x86 for instruction lengths/mnemonics/direct targets in the harness-side bookkeeping (common-mode with the subject; engine A covers decoding against the CPU), the protocol/tracer models in harness/src/mon; "
+              "native hooks only; release-profile semantics with the ax_verif hooks on. Sampling decides.")
+CRASH_NOTE = ("Trusted base: the supervisor (worker processes, shared progress page, watchdog) and the ax_verif hook that turns by-design rejections into Err; termination is a bounded-progress restatement (20 s without progress, then 120 s alone). Sampling decides.")
+
 CHECKS = {
  "C01": ("hw", "differential runtime monitoring against the CPU (ptrace single-step oracle) + census replay", "2.1, 4/C01",
          "Every trial's complete post-state (16 GPRs, 16 XMM, FS/GS base, RIP, 52 KiB of mirrored memory) is compared with the CPU's for the same bytes and pre-state; held = no disagreement in the sampled trials of ~270 data-processing forms x operand shapes x flag states, and every form of the pinned census still executes.", HW_NOTE),
@@ -38,6 +42,18 @@ CHECKS = {
          "Every read's count and bytes are compared with a VecDeque model per pipe, bytes beyond the returned count must stay untouched, every pipe is drained at the end, and syscalls on non-pipe descriptors must show up in the log of a hook registered after handle_syscalls.", MODEL_NOTE),
  "C15": ("model", "runtime monitoring of from_binary over generated well-formed ELF files with the file itself as the oracle", "2.2, 4/C15",
          "The harness writes ELF64 executables covering segment count/order/alignment/size classes/flags/extra headers/symbol-table corner cases and compares the loaded machine (area-list hook, mem_read_bytes, RIP, resolve_symbol) with the file's own bytes; the bundled binaries are checked the same way.", MODEL_NOTE),
+ "C11": ("events", "runtime monitoring with twin machines (execute() vs stepped) and per-step assertions on hooked loop state (count, RIP, finished, limit)", "2.2, 4/C11",
+         "For generated programs x instruction limits x hook stop points, a stepped twin is checked after every step (count +1, RIP at the next instruction for non-transfers, finished exactly under the three conditions, refused steps change nothing) and must end in the same result, error text and full state as the execute() twin.", EVENT_NOTE),
+ "C12": ("events", "runtime monitoring: online trace-specification checker over an event log written by instrumented native hooks and at the step() boundary, plus a hook-free twin replaying the observed modifications", "2.2, 4/C12",
+         "Instrumented hooks log what they see and modify the machine in guest-visible ways; after every step the log is checked against the protocol (phase order, at most once, mnemonic, RIP advanced, complete set unless handled/stopped/failed, step result, stop semantics, registration rules) and the machine against a hook-free twin on which the modifications are replayed around the same instruction.", EVENT_NOTE),
+ "C16": ("crash", "runtime monitoring in supervised worker processes: catch_unwind, RLIMIT_AS, counting allocator, progress watchdog with death/stall attribution", "2.3, 4/C16",
+         "from_binary is run on field-targeted, multi-field, truncated and random mutants of generated and bundled ELF files in address-space-limited workers; panics are caught, aborts / signals / stalls are attributed to the exact input through a shared progress page and confirmed by re-running the case alone.", CRASH_NOTE),
+ "C18": ("events", "runtime monitoring against an independent tracer (own decode, own condition table) compared with the structured trace and call stack after every step; renderers called at every step", "2.2, 4/C18",
+         "Programs of jumps, conditional jumps on all conditions, direct/indirect calls, matched and unmatched returns, ending normally or in an error, are stepped; the expected trace entries (source, target, kind, run-length count, level) and call stack are maintained independently and compared after every step, and trace()/call_stack()/to_string() must return Ok at every step and in every terminal state.", EVENT_NOTE),
+ "C19": ("crash", "runtime monitoring in supervised worker processes: catch_unwind around step() on hostile byte strings and states, progress watchdog", "2.3, 4/C19",
+         "Millions of (byte string, steered register/flag/memory state) inputs - uniform, prefix/opcode-structured over all opcode maps, and mutated encodings of implemented forms - are stepped once each; with the hooks on, whatever still unwinds, aborts or stalls is a crash and is reported with the exact input.", CRASH_NOTE),
+ "C20": ("events", "runtime monitoring: twin machines in one process and replicas in 4 worker processes compared on every observable; used-register analysis bounds the comparison to defined registers", "2.2, 4/C20",
+         "The same code and explicit inputs (a random subset of the registers, flags, memory, hooks, syscall handlers) are run on independently constructed machines in one process and in separate processes; results, error texts, defined registers, flags, memory, counts, traces must be identical, so any dependence on the constructor's random registers, HashMap seeds or other process-level randomness shows.", EVENT_NOTE),
 }
 NOT_YET = {}
 
